@@ -207,7 +207,7 @@ def apply_op(root, e: Dict[str, Any], km: KeyMap, pool: Dict[str, Any]):
     p = km.path(e.get("p", []))
     base = root
     via = e.get("via", 0)
-    if via and len(e.get("p", [])) > via and op not in ("copy", "move"):
+    if via and len(e.get("p", [])) > via and op not in ("copy", "move", "copyx"):
         try:
             cand = root[km.path(e["p"][:via])]
             if not is_dataset(cand):
@@ -232,6 +232,10 @@ def apply_op(root, e: Dict[str, Any], km: KeyMap, pool: Dict[str, Any]):
         del base[p].attrs[km.ak.get(e["key"], e["key"])]
     elif op == "copy":
         root.copy(p, km.path(e["q"]))
+    elif op == "copyx":
+        root.copy(p, km.path(e["q"]), shallow=e["shallow"], without_attrs=e["noattrs"])
+    elif op == "require_dataset":
+        base.require_dataset(p, shape=(), dtype="int64", data=pool[e["v"]])
     elif op == "move":
         root.move(p, km.path(e["q"]))
     else:
@@ -241,7 +245,8 @@ def apply_op(root, e: Dict[str, Any], km: KeyMap, pool: Dict[str, Any]):
 # --------------------------------------------------------------------------------------
 # state-aware random operation generator
 
-USER_OPS = ["create_group", "set_dataset", "delete", "set_attr", "del_attr", "copy", "move", "require_group"]
+USER_OPS = ["create_group", "set_dataset", "delete", "set_attr", "del_attr", "copy", "move", "require_group",
+            "copyx", "require_dataset"]
 
 
 def gen_op(rng: random.Random, view: List[Dict[str, Any]], *, depth: int = 3,
@@ -255,7 +260,7 @@ def gen_op(rng: random.Random, view: List[Dict[str, Any]], *, depth: int = 3,
     attr_values = attr_values or [v for v in values if v != "v8"] or ["v1"]
     attr_keys = attr_keys or ABSTRACT_ATTRS
     w = {"create_group": 3, "set_dataset": 4, "delete": 3, "set_attr": 3, "del_attr": 1.5,
-         "copy": 2, "move": 1.5, "require_group": 0.7}
+         "copy": 2, "move": 1.5, "require_group": 0.7, "copyx": 0, "require_dataset": 0}
     if weights:
         w.update(weights)
     ops = list(w)
@@ -309,14 +314,29 @@ def gen_op(rng: random.Random, view: List[Dict[str, Any]], *, depth: int = 3,
         else:
             e["p"] = list(rng.choice(list(nodes)))
             e["key"] = rng.choice(attr_keys)
-    elif op in ("copy", "move"):
+    elif op == "require_dataset":
+        r2 = rng.random()
+        ints = [p for p in datasets if nodes[p]["v"] == "v1"]
+        if r2 < 0.4 and ints:
+            e["p"] = list(rng.choice(ints))       # exists with matching shape/type: returned as is
+        elif r2 < 0.8:
+            e["p"] = fresh()
+        else:
+            e["p"] = list(rng.choice(groups)) if len(groups) > 1 else fresh()
+            if not e["p"]:
+                e["p"] = fresh()
+        e["v"] = "v1"
+    elif op in ("copy", "move", "copyx"):
+        if op == "copyx":
+            e["shallow"] = rng.random() < 0.5
+            e["noattrs"] = rng.random() < 0.5
         e["p"] = existing_or(0.9)
         if r < 0.8:
             e["q"] = fresh()
         else:
             e["q"] = existing_or(0.6)
         src = e["p"]
-        forbidden = op == "move" or not allow_copy_into_self
+        forbidden = op in ("move", "copyx") or not allow_copy_into_self
         tries = 0
         while forbidden and e["q"][: len(src)] == src and tries < 5:
             e["q"] = fresh()
